@@ -43,9 +43,9 @@ PROPS = {
     "C07": dict(suites={"plan": dict(fields=LAYOUT, oracles=["isolated"]),
                         "exec": dict(fields=XLAYOUT, oracles=["no_overlap", "inside", "borrow_panic", "par_eq_seq(world)", "par_eq_seq(states)",
                                                               "once", "preds_done", "unexpected_panic"], kf1=True)}),
-    "C06": dict(sd=True, suites={"sysdata": dict(fields=["reads", "writes", "fetch", "alive", "after", "setup", "setupok", "driver-exception"],
+    "C06": dict(sd=True, suites={"sysdata": dict(fields=["reads", "writes", "fetch", "alive", "after", "setup", "setupok", "setup-calls", "driver-exception"],
                                                  oracles=["declared_equals_borrowed", "conflicting_members_fetched", "released_after_drop", "setup_keeps_existing",
-                                                          "setup_default_value", "setup_idempotent"])}),
+                                                          "setup_default_value", "setup_idempotent", "setup_composes"])}),
     "C08": dict(sd=True, suites={"world": dict(fields=["outcome", "probe", "ledger", "end", "driver-exception"],
                                       oracles=["fail_preserves", "none_iff_absent", "borrow_class"]),
                         "meta": dict(fields=["outcome", "driver-exception"], oracles=["iter_borrow_discipline"]),
@@ -62,8 +62,8 @@ PROPS = {
                                       oracles=["thread_local_outside_wait", "thread_local_off_the_calling_thread",
                                                "thread_local_while_a_system_is_running", "wait_runs_thread_locals_in_order"])}),
     "C13": dict(sd=True, suites={"exec": dict(fields=["builderr", "driver-exception", "setup_order", "dispose_order"], oracles=["setup_visits", "setup_keeps", "setup_recreates", "dispose_visits"]),
-                                 "sysdata": dict(fields=["setup", "setupok", "driver-exception"],
-                                                 oracles=["setup_keeps_existing", "setup_default_value", "setup_idempotent"])}),
+                                 "sysdata": dict(fields=["setup", "setupok", "setup-calls", "driver-exception"],
+                                                 oracles=["setup_keeps_existing", "setup_default_value", "setup_idempotent", "setup_composes"])}),
     "C14": dict(suites={"exec": dict(fields=XLAYOUT, oracles=["panic_payload", "panic_dependents", "panic_twice", "next_dispatch", "probe_free",
                                                               "unexpected_panic"])}),
     "C15": dict(suites={"async": dict(fields=["async_accept", "builderr", "level-plan", "driver-exception"],
